@@ -41,6 +41,7 @@ CALLS = [(r'^check\|.*long, long\)', 'check_i64'), (r'^check\|.*double, double\)
          (r'^get\|__tuple_element_t<0UL', '{0}._0'), (r'^get\|__tuple_element_t<1UL', '{0}._1'),
          (r'^move\|', '{0}'),     # std::move on the value models (strings are ids, records are plain structs): a copy
          (r'^find\|', 'nv_find_str({0}, {1}, {&2})'), (r'^operator==\|.*__normal_iterator<std::basic_string<char> \*', '({0} == {1})'),
+         (r'^operator!=\|.*__normal_iterator<std::basic_string<char> \*', '({0} != {1})'),
          (r'^operator=\|.*basic_string<char> &\(', '({0} = {1})'),
          (r'^update\|parameter_t::enum_t &\(', 'update_enum!^'),
          (r'^stoll\|', 'nv_stoll({&0})!^'), (r'^stod\|', 'nv_stod({&0})!^'), (r'^split_pair\|', 'nv_split_pair({&0})')]
@@ -82,6 +83,32 @@ def ctor(cname, pt):
     want = ['nano::string_t', 'nano::parameter_t::' + pt if pt else 'nano::string_t']
     return Fn(cname, TU, 'parameter_t', flt='nano::parameter_t::parameter_t', select=lambda d: astload.param_types(d) == want,
               self_struct='struct nv_parameter', **COMMON)
+
+
+DRV = 'drivers/inst_param.cpp'
+
+
+def reader(cname, name, tv):
+    """parameter_t::value<tv>() / value_pair<tv>() (header templates, instantiated by the driver) with the record-level
+    value<tv>() accessors they dispatch to"""
+    sfx = {'long': 'i64', 'double': 'f64'}[tv]
+    c = dict(COMMON)
+    c['members'] = MEMBERS + [(r'^logical_error\|', '@throw')] + [
+        (r'^value\|nano::parameter_t::%s<%s' % (rec, ts), f'{nm}_{sfx}')
+        for rec, ts, nm in [('range_t', 'long', 'range_value_ir'), ('range_t', 'double', 'range_value_fr'),
+                            ('pair_range_t', 'long', 'pair_value_ip'), ('pair_range_t', 'double', 'pair_value_fp')]]
+    tup = 'struct nv_tup_' + sfx
+    c['calls'] = CALLS + [(r'^make_tuple\|', '(%s){{0}, {1}}' % tup)]
+    fns = [Fn(cname, DRV, name, flt='nano::parameter_t::' + name, select=targs(tv, '-1'), self_struct='struct nv_parameter',
+              ret=(tup if name == 'value_pair' else None), **c)]
+    if name == 'value':
+        recs = [('range_value_ir', 'range_t', 'range_tIl', 'struct nv_irange', None), ('range_value_fr', 'range_t', 'range_tId', 'struct nv_frange', None)]
+    else:
+        recs = [('pair_value_ip', 'pair_range_t', 'pair_range_tIl', 'struct nv_iprange', tup), ('pair_value_fp', 'pair_range_t', 'pair_range_tId', 'struct nv_fprange', tup)]
+    for nm, rec, mang, st, ret in recs:
+        sel = lambda d, mang=mang: astload.template_args(d) == [tv] and mang in (d.get('mangledName') or '')
+        fns.append(Fn(f'{nm}_{sfx}', DRV, 'value', flt='nano::parameter_t::' + rec, select=sel, self_struct=st, ret=ret, **c))
+    return fns
 
 
 def method(cname, name, ptypes=None):
@@ -130,6 +157,14 @@ def build(tier):
         targets.append(T(cname, [method(cname, 'operator=', ['nano::string_t']), upd_enum()] +
                          [upd(c, table[c]) for c in ('update_ir_ll', 'update_fr_f64', 'update_ip_ll', 'update_fp_f64')] + helpers(),
                          solver=None))
+    # T5: readers (header templates through the instantiation-only driver)
+    for cname, name, tv in [('value_i64', 'value', 'long'), ('value_f64', 'value', 'double'),
+                            ('pair_i64', 'value_pair', 'long'), ('pair_f64', 'value_pair', 'double')]:
+        targets.append(T(cname, reader(cname, name, tv)))
+    c = dict(COMMON)
+    c['members'] = MEMBERS + [(r'^logical_error\|', '@throw')]
+    targets.append(T('value_str', [Fn('value_str', DRV, 'value', flt='nano::parameter_t::value', select=targs('std::basic_string<char>', '-1'),
+                                      self_struct='struct nv_parameter', **c)]))
     return {
         'targets': targets, 'vcs': [],
         'decided': [],
